@@ -226,7 +226,8 @@ class MessagePackRpc(MessagePackDocument):
 
 
         except ValueError as e:
-            raise MessagePackDecodeError(''.join(e.args))
+            # e.args need not be strings (see msgpack.ExtraData)
+            raise MessagePackDecodeError(' '.join(str(a) for a in e.args))
 
         try:
             len(ctx.in_document)
